@@ -187,7 +187,42 @@ func checkC07(p *Prog, l *Ledger) {
 				report("C07/P10-other", mk(fk+"#chan"), p.InstrPos(in), "channel operation")
 			case *ssa.SliceToArrayPointer:
 				report("C07/P10-other", mk(fk+"#slice-to-array"), p.InstrPos(in), "slice to array conversion panics on short slices")
+			case *ssa.Lookup:
+				// a map keyed by interface values hashes the dynamic value: a slice, map or function as key panics
+				// ("hash of unhashable type") exactly like comparing two of them
+				if mt, isMap := x.X.Type().Underlying().(*types.Map); isMap && isIfaceT(mt.Key()) {
+					counts["P2"]++
+					key := mk(fk + "#key(" + describe(x.X) + ")[" + describe(x.Index) + "]")
+					var bad []string
+					for ts, t := range dynTypes(p, u, x.Index, in) {
+						if !safeComparable(t) {
+							bad = append(bad, ts)
+						}
+					}
+					sort.Strings(bad)
+					if len(bad) == 0 {
+						l.Discharge("C07/P2-iface-compare", key, p.InstrPos(in), "every dynamic type the key can have is hashable", true)
+					} else {
+						report("C07/P2-iface-compare", key, p.InstrPos(in), "a map keyed by interface values is looked up with a key that may hold "+strings.Join(bad, " or ")+": hashing it panics ('hash of unhashable type')")
+					}
+				}
 			case *ssa.MapUpdate:
+				if mt, isMap := x.Map.Type().Underlying().(*types.Map); isMap && isIfaceT(mt.Key()) {
+					counts["P2"]++
+					key := mk(fk + "#key(" + describe(x.Map) + ")[" + describe(x.Key) + "]=")
+					var bad []string
+					for ts, t := range dynTypes(p, u, x.Key, in) {
+						if !safeComparable(t) {
+							bad = append(bad, ts)
+						}
+					}
+					sort.Strings(bad)
+					if len(bad) == 0 {
+						l.Discharge("C07/P2-iface-compare", key, p.InstrPos(in), "every dynamic type the key can have is hashable", true)
+					} else {
+						report("C07/P2-iface-compare", key, p.InstrPos(in), "a map keyed by interface values is stored into with a key that may hold "+strings.Join(bad, " or ")+": hashing it panics ('hash of unhashable type')")
+					}
+				}
 				counts["P6"]++
 				key := mk(fk + "#mapstore(" + describe(x.Map) + ")")
 				if ok, why := mapNonNil(p, x.Map, in.Block()); ok {
